@@ -328,6 +328,26 @@ def gen_layout(rng, objs, names_ok):
                 need = cur - base
         r = rng.random()
         size = need + rng.choice([0x40, 0x100]) if r < 0.7 else need if r < 0.92 else max(0, need - rng.choice([1, 1, 2, 5]))
+        # directed: the region is overfull only because of its LAST input (a SECTIONDATA copy, or a section), by
+        # less than that input's size: every kind of input must take part in the end-of-memory check
+        sd = [i for i in ins if i["k"] == "sectiondata"]
+        if sd and rng.random() < 0.5:
+            ins.remove(sd[0])
+            ins.append(sd[0])
+            cur = base
+            for i in ins:
+                if i["k"] == "section":
+                    sz, al = out.get(i["name"], [0, 4])
+                    cur += (-cur) % al
+                    cur += sz
+                elif i["k"] == "sectiondata":
+                    cur += out[i["name"]][0]
+                elif i["k"] == "align":
+                    cur += (-cur) % i["al"]
+            need = cur - base
+            last = out[sd[0]["name"]][0]
+            r2 = rng.random()
+            size = need if r2 < 0.3 else max(0, need - rng.choice([1, max(1, last // 2), max(1, last)])) if r2 < 0.8 else need + 0x40
         mems.append({"name": "m%d" % k if rng.random() < 0.7 else ["flash", "ram", "rom"][k],
                      "loc": base, "size": size, "ins": ins})
         base = base + size + rng.choice([0, 1, 0x10, 0x1000, 0x7fff])
